@@ -900,6 +900,36 @@ func c18(r *Report) {
 			}
 			r.Decide("flow", "(*M.Proxy).handle: Context."+pr[0]+" is looked up at the range start", okL, short(pr[1])+"(rangeStart)", "the "+pr[0]+" of a response is not looked up at its first byte: a response starting inside (or after) a throttle or action is shaped as if it started at byte 0", lit.Pos())
 		}
+		// the head whose length is measured is the head that is written: nothing that changes
+		// the response head (Close, ContentLength, TransferEncoding, a header edit) happens between
+		// the dump and the write
+		for _, dc := range plainCalls(handle, "net/http/httputil.DumpResponse") {
+			changesHead := func(i ssa.Instruction) bool {
+				st, ok := i.(*ssa.Store)
+				if !ok {
+					return false
+				}
+				fa, ok := st.Addr.(*ssa.FieldAddr)
+				if !ok || fa.X.Type().String() != "*net/http.Response" {
+					return false
+				}
+				switch fieldObj(fa).Name() {
+				case "Close", "ContentLength", "TransferEncoding", "Header", "StatusCode", "Status", "Proto", "ProtoMajor", "ProtoMinor":
+					return true
+				}
+				return false
+			}
+			late := false
+			for _, wc := range plainCalls(handle, nResWrite) {
+				// a path from the dump to the write that passes a head change
+				for _, in := range instrs(handle) {
+					if changesHead(in) && g.PathTo([]ssa.Instruction{dc}, false, nil, func(i ssa.Instruction) bool { return i == in }) != nil && g.PathTo([]ssa.Instruction{in}, false, nil, func(i ssa.Instruction) bool { return i == ssa.Instruction(wc) }) != nil {
+						late = true
+					}
+				}
+			}
+			r.Decide("path", "(*M.Proxy).handle: the response head is final when its length is measured", !late, "no store to the response's Close / ContentLength / TransferEncoding / Header between DumpResponse and Write", "the response head is changed after its length was measured for the shaping context (for instance Connection: close added at shutdown): the extra head octets are counted as body, and every action fires that many octets early", dc.Pos())
+		}
 		// SetCapacity(ThrottleContext.Bandwidth) on the ThrottleNow edge
 		okTN := false
 		for _, c := range calls(handle, "(*M/trafficshape.Bucket).SetCapacity") {
@@ -1032,7 +1062,7 @@ func c18(r *Report) {
 						return a.Comment == bname
 					}
 				}
-				return v == ssa.Value(fn.Params[1])
+				return isParamVal(v, fn.Params[1])
 			}
 			type amt struct {
 				key ssa.Value
